@@ -608,6 +608,7 @@ func runC04(r *Run) {
 	c04StructRoot(r)
 	c04NilItems(r)
 	c04MixedItems(r)
+	c04LoopElementDirectives(r)
 	r.Imports = []string{"Base.Val", "Model.Stack", "Model.Loops", "Model.ForHead"}
 	c04Heads(r)
 	r.Rule("loop nests up to depth 3 over slices and arrays of every element kind ([]any, []int, []string, [2]string and [3]int including all-zero arrays, [][]any, []map, []*S1 with nil members, []S1), lengths 0..3, nil, missing and non-sequence collections, and over maps (map[string]any, map[string]string, map[int]string, a map of maps; 0..7 entries whose printed keys sort differently from their numeric / listing order), " +
@@ -754,4 +755,97 @@ func c04Render(src string, data any) (string, error) {
 		err = vuego.NewFS(m).Fill(data).RenderString(context.Background(), &buf, src)
 	}()
 	return buf.String(), err
+}
+
+// the loop element itself carries a further directive that shows the item (v-html, v-text, a bound attribute, v-show,
+// :class, an interpolated attribute), on an element and on <template>: every instance shows ITS item, in order, for
+// 1..4 items; a v-else follows and is taken only for the empty collection; the outer name is back afterwards
+func c04LoopElementDirectives(r *Run) {
+	forms := []struct{ name, tpl, each string }{
+		{"template-v-html", `<template v-for="(i, b) in bs" v-html="b"></template>`, `%s`},
+		{"template-v-html-1var", `<template v-for="b in bs" v-html="b"></template>`, `%s`},
+		{"element-v-html", `<p v-for="b in bs" v-html="b"></p>`, `<p>%s</p>`},
+		{"element-v-text", `<p v-for="b in bs" v-text="b"></p>`, `<p>%s</p>`},
+		{"element-bound-attr", `<p v-for="b in bs" :title="b">t</p>`, `<ptitle="%s">t</p>`},
+		{"element-interpolated-attr", `<p v-for="b in bs" title="x{{ b }}y">t</p>`, `<ptitle="x%sy">t</p>`},
+		{"element-class", `<p v-for="b in bs" class="k" :class="b">t</p>`, `<pclass="k%s">t</p>`},
+		{"element-v-show", `<p v-for="b in bs" v-show="b == 'two'" :id="b">t</p>`, ``},
+		{"template-assign", `<template v-for="b in bs" :last="b"><i>{{ last }}</i></template>`, `<i>%s</i>`},
+		{"template-v-html-nested", `<div v-for="g in gs"><template v-for="b in g" v-html="b"></template>|</div>`, ``},
+	}
+	words := []string{"one", "two", "three", "four"}
+	for _, f := range forms {
+		for k := 0; k <= 4; k++ {
+			for _, shape := range []string{"slice", "array", "strings"} {
+				var bs any
+				switch shape {
+				case "slice":
+					xs := []any{}
+					for _, w := range words[:k] {
+						xs = append(xs, w)
+					}
+					bs = xs
+				case "strings":
+					bs = append([]string{}, words[:k]...)
+				default:
+					switch k {
+					case 2:
+						bs = [2]string{"one", "two"}
+					case 3:
+						bs = [3]string{"one", "two", "three"}
+					default:
+						continue
+					}
+				}
+				want := ""
+				for _, w := range words[:k] {
+					switch f.name {
+					case "element-v-show":
+						if w == "two" {
+							want += `<pid="two">t</p>`
+						} else {
+							want += `<pstyle="display:none;"id="` + w + `">t</p>`
+						}
+					case "element-class":
+						want += fmt.Sprintf(f.each, w)
+					default:
+						want += fmt.Sprintf(f.each, w)
+					}
+				}
+				tpl := f.tpl + `<u v-else>none</u><s>{{ b }}</s>`
+				data := map[string]any{"bs": bs, "b": "outer"}
+				if f.name == "template-v-html-nested" {
+					if shape != "slice" {
+						continue
+					}
+					tpl = f.tpl + `<s>{{ b }}</s>`
+					data["gs"] = []any{bs, bs}
+					row := "<div>" + strings.Join(words[:k], "") + "|</div>"
+					want = row + row
+				} else if k == 0 {
+					want = "<u>none</u>"
+				}
+				want += "<s>outer</s>"
+				out, err := c04Render(tpl, data)
+				got := strings.Join(strings.Fields(out), "")
+				// attribute order and the spelling of the style value are the serialiser's business
+				norm := func(x string) string {
+					x = strings.ReplaceAll(x, `style="display:none;"id="`, `id="§`)
+					x = regexp.MustCompile(`id="([^§"]*)"style="display:none;?"`).ReplaceAllString(x, `id="§$1"`)
+					return strings.ReplaceAll(x, `class="k`, `class="k`)
+				}
+				if f.name == "element-class" {
+					got = strings.ReplaceAll(got, `class="k`, `class="k`)
+					want = strings.ReplaceAll(want, `class="k`, `class="k`)
+					got = regexp.MustCompile(`class="k\s*`).ReplaceAllString(got, `class="k`)
+				}
+				r.Eval(fmt.Sprintf("loop-element:%s:%d:%s", f.name, k, shape), k >= 2, nil)
+				r.Count("stream:loop-element-directives(oracle only)")
+				if err != nil || norm(got) != norm(want) {
+					r.Fail("an instance of a loop whose element carries a further directive does not show its own item", map[string]string{"oracle": "loop-element-directives", "form": f.name},
+						map[string]any{"template": tpl, "items": fmt.Sprint(bs), "output": out, "expected_without_whitespace": want, "err": fmt.Sprint(err)})
+				}
+			}
+		}
+	}
 }
